@@ -382,3 +382,11 @@ def check_wrap_numpy(fname, spec, kwargs=None, seq=False, out=False):
         prove("fresh_object", all(got is not o for o in ops))
     equiv_arrays("spec", got, want)
     return got, ops
+
+
+def ratio(u, v):
+    """SCALE(u)/SCALE(v) as the code's conversion computes it: exactly 1 on paths where the two units
+    are spelled identically (Array.to returns self there), the quotient of the scales otherwise"""
+    if u is v or bool(u == v):
+        return 1
+    return u.scale / v.scale
